@@ -54,6 +54,44 @@ Definition p_clean (w : world) (vacuum : bool) (order : list key) : list event :
 Definition p_delete (w : world) (ks : list key) : list event :=
   map EUnlinkLoose ks ++ [ESql (SDelete ks); ECommit].
 
+(* add_streamed_objects_to_pack (one pack), the three modes:
+     nh = false                      : every object is appended and gets a row (INSERT OR IGNORE decides about known keys)
+     nh = true,  twice = true        : the stream is hashed first; a known key is skipped without writing
+     nh = true,  twice = false       : the object is appended; if its key turns out to be known the handle is sought back and the
+                                       pack truncated at once (the repair of finding F3)
+   `known` starts as the indexed keys when nh (else it is not consulted), grows with every new key of the batch.
+   Returns the events of the loop and the rows collected. *)
+Fixpoint atp_loop (id : Z) (nh twice : bool) (known : list key) (pos : nat) (objs : list pobj) : list event * list row :=
+  match objs with
+  | [] => ([], [])
+  | o :: t =>
+      let is_known := nh && existsb (N.eqb (okey o)) known in
+      if is_known then
+        let '(es, rs) := atp_loop id nh twice known pos t in
+        if twice then (es, rs)
+        else (EWrite (HPack id) (oblob o) :: ETruncate id pos :: es, rs)
+      else
+        let '(es, rs) := atp_loop id nh twice (if nh then okey o :: known else known) (pos + length (oblob o)) t in
+        (EWrite (HPack id) (oblob o) :: es, mkRow (okey o) id pos (length (oblob o)) (ocomp o) (osize o) :: rs)
+  end.
+
+Fixpoint atp_end (nh : bool) (known : list key) (pos : nat) (objs : list pobj) : nat :=
+  match objs with
+  | [] => pos
+  | o :: t => if nh && existsb (N.eqb (okey o)) known then atp_end nh known pos t
+              else atp_end nh (if nh then okey o :: known else known) (pos + length (oblob o)) t
+  end.
+
+Definition p_add_to_pack (w : world) (id : Z) (objs : list pobj) (nh twice do_fsync : bool) : list event :=
+  let known := map rkey (db w) in
+  let pos0 := pack_len w id in
+  let '(es, rs) := atp_loop id nh twice known pos0 objs in
+  EOpenPack id :: es ++
+  (if nh then [ETruncate id (atp_end nh known pos0 objs)] else []) ++
+  (match rs with [] => [] | _ => [ESql (SInsert true rs)] end) ++
+  (if do_fsync then [EFlush (HPack id); EFsync (HPack id)] else []) ++
+  [EClose (HPack id); ECommit].
+
 (* repack_pack(id): nothing indexed in the pack -> remove the file; otherwise copy the stored bytes of its live rows, in offset
    order, into the temporary pack -1 (objs: key, new stored blob - recompressed or not, an oracle -, flag, size), flush+fsync+close,
    re-point the rows to -1 with their new offsets (bulk update by primary key), COMMIT, remove the old pack, hard-link -1 back to
